@@ -50,6 +50,10 @@ TRUSTED = ["Model/VolAvg.v: hand model of _volume_average_weights / interp_volum
 ASSUMES = ["node vectors are strictly increasing with at least two nodes (TensorMesh guarantees it)",
            "exact arithmetic: rounding of the merged-node differences and of the centre test is not modelled"]
 
+NAMES6 = ['Conductivity', 'LgConductivity', 'LnConductivity', 'Resistivity', 'LgResistivity',
+          'LnResistivity']
+PROPS5 = ['property_x', 'property_y', 'property_z', 'mu_r', 'epsilon_r']
+
 HEADER = (K.CASE_HEADER + "From V Require Import Model.VolAvg.\n"
           "Definition o3 (t : Q * nat * nat) := (out_q (fst (fst t)), Z.of_nat (snd (fst t)), Z.of_nat (snd t)).\n"
           "Definition zi (o : idx3) := (Z.of_nat (fst (fst o)), Z.of_nat (snd (fst o)), Z.of_nat (snd o)).\n"
@@ -409,39 +413,58 @@ def check_3d(ctx, n, nmax, dis, hist, samples):
         k = closev(lg, m_log)
         if k is not None:
             report("interpolate(method='volume', log=True) differs from 10**(A log10 v)", lg, m_log, k)
-        # (iii) Model.interpolate_to_grid for the six maps (log from the map name)
-        name = ['Conductivity', 'LgConductivity', 'LnConductivity', 'Resistivity', 'LgResistivity',
-                'LnResistivity'][i % 6]
+        # (iii) Model.interpolate_to_grid: six maps (log from the map name) x 4 anisotropy cases x
+        #       mu_r none/given x epsilon_r none/given; every property compared BY NAME
+        name = NAMES6[i % 6]
+        aniso, has_mu, has_eps = i % 4, (i // 4) % 2 == 1, (i // 8) % 2 == 1
         mp = getattr(maps, 'Map' + name)()
         with np.errstate(all='ignore'), warnings.catch_warnings():
             warnings.simplefilter('ignore')
-            px = mp.forward(v.copy())
-            has_mu = (i % 2 == 0)
-            mu = values8(rng, v.shape) if has_mu else None
-            model = emg3d.Model(g, property_x=px, mu_r=mu, mapping=name)
+            props = {'property_x': mp.forward(v.copy()),
+                     'property_y': mp.forward(values8(rng, v.shape)) if aniso in (1, 3) else None,
+                     'property_z': mp.forward(values8(rng, v.shape)) if aniso in (2, 3) else None,
+                     'mu_r': values8(rng, v.shape) if has_mu else None,
+                     'epsilon_r': values8(rng, v.shape) if has_eps else None}
+            model = emg3d.Model(g, mapping=name, **{k_: (None if a_ is None else a_.copy())
+                                                    for k_, a_ in props.items()})
+            combo = f"i2g:aniso={aniso} mu={int(has_mu)} eps={int(has_eps)}"
             if g == ng:
                 hist['i2g:identical grid'] = hist.get('i2g:identical grid', 0) + 1
                 if model.interpolate_to_grid(ng) is not model:
                     dis.append({'what': 'interpolate_to_grid on an identical grid does not return the model',
                                 'case': brief})
             else:
-                m2 = model.interpolate_to_grid(ng)
+                hist[combo] = hist.get(combo, 0) + 1
+                try:
+                    m2 = model.interpolate_to_grid(ng)
+                except Exception as e:
+                    dis.append({'what': f'Model.interpolate_to_grid raised ({name}, {combo})', 'case': brief,
+                                'impl': repr(e)})
+                    m2 = None
                 log = not name.startswith('L')
 
                 def expect(p):
                     return (10 ** model_apply_py(T, vol, np.log10(p), shape_o) if log
                             else model_apply_py(T, vol, p, shape_o))
                 nev += 1
-                k = closev(m2.property_x, expect(px))
-                if k is not None:
-                    report(f'Model.interpolate_to_grid ({name}) property_x differs from the model',
-                           m2.property_x, expect(px), k)
-                if has_mu:
-                    k = closev(m2.mu_r, expect(mu))
+                for pn, arr in (props.items() if m2 is not None else []):
+                    got = getattr(m2, pn)
+                    if (arr is None) != (got is None):
+                        dis.append({'what': f'Model.interpolate_to_grid ({name}, {combo}): {pn} is '
+                                            f'{"defined" if got is not None else "None"} in the result but '
+                                            f'{"defined" if arr is not None else "None"} in the input',
+                                    'case': brief})
+                        continue
+                    if arr is None:
+                        continue
+                    k = closev(got, expect(arr))
                     if k is not None:
-                        report(f'Model.interpolate_to_grid ({name}) mu_r differs from the model',
-                               m2.mu_r, expect(mu), k)
-                if m2.map.name != name:
+                        report(f'Model.interpolate_to_grid ({name}, {combo}) {pn} differs from the model '
+                               f'applied to {pn}', got, expect(arr), k)
+                if m2 is not None and m2.case != model.case:
+                    dis.append({'what': f'interpolate_to_grid changed the anisotropy case '
+                                        f'{model.case} -> {m2.case} ({combo})', 'case': brief})
+                if m2 is not None and m2.map.name != name:
                     dis.append({'what': 'interpolate_to_grid changed the mapping', 'case': brief})
         # (iv) the adjoint used by the gradient vs the model's explicit transpose
         oval = np.zeros((3, *g.shape_cells))
@@ -458,8 +481,6 @@ def check_3d(ctx, n, nmax, dis, hist, samples):
 
 
 # --------------------- call histories that RE-USE the same grid objects
-NAMES6 = ['Conductivity', 'LgConductivity', 'LnConductivity', 'Resistivity', 'LgResistivity',
-          'LnResistivity']
 
 
 def gen_pool(rng, nmax=3):
@@ -611,7 +632,9 @@ def correspondence(ctx):
                 "distinct non-trivial = distinct (relation tags, sizes) other than equal grids. 3-D: per "
                 "direction a pair of 1..3 (thorough 4) cells, values 8-bit mantissa * 2^(-13..13); "
                 "interp_volume_average with zero/non-zero initial output, interpolate linear/log, "
-                "Model.interpolate_to_grid (map cycling, mu_r every other case), adjoint; 1e-9 relative. Call "
+                "Model.interpolate_to_grid (map cycling; anisotropy case x mu_r x epsilon_r cycling through all "
+                "16 combinations, every property compared by name, None status / case / mapping preserved), "
+                "adjoint; 1e-9 relative. Call "
                 "histories: a pool of grid OBJECTS (G0, G0 shifted, same counts/other widths, permuted shape, "
                 "other counts, two targets) re-used as source and target through 9 (thorough 12) calls "
                 "(adjoint, interpolate linear/log, Model.interpolate_to_grid), starting with adjoints of three "
@@ -785,6 +808,67 @@ def search_history_case(seed):
     return None
 
 
+def search_i2g_case(seed):
+    """Model.interpolate_to_grid on the implementation: all 4 anisotropy cases x mu_r none/given x
+    epsilon_r none/given (random map each): every property of the result equals, BY NAME,
+    maps.interpolate(method='volume', log=<from map name>) of that same property; defined /
+    undefined status, anisotropy case and mapping are preserved."""
+    import random
+    import emg3d
+    from emg3d import maps
+    rng = random.Random(seed)
+    nodes, nnodes = [], []
+    for d in range(3):
+        a, b = pair_1d(rng, rng.choice(['refine', 'coarsen', 'overlap', 'same_region', 'outside', 'shift']), 4)
+        nodes.append(a)
+        nnodes.append(b)
+    g, ng = mesh_of(nodes), mesh_of(nnodes)
+    if g == ng:
+        return None
+    npr = np.random.RandomState(seed % (2 ** 31))
+    for combo in range(16):
+        aniso, has_mu, has_eps = combo % 4, (combo // 4) % 2 == 1, combo // 8 == 1
+        name = rng.choice(NAMES6)
+        mp = getattr(maps, 'Map' + name)()
+
+        def cond():
+            return 10 ** npr.uniform(-3, 3, g.shape_cells)
+        with np.errstate(all='ignore'), warnings.catch_warnings():
+            warnings.simplefilter('ignore')
+            props = {'property_x': mp.forward(cond()),
+                     'property_y': mp.forward(cond()) if aniso in (1, 3) else None,
+                     'property_z': mp.forward(cond()) if aniso in (2, 3) else None,
+                     'mu_r': npr.uniform(0.5, 3, g.shape_cells) if has_mu else None,
+                     'epsilon_r': npr.uniform(0.5, 9, g.shape_cells) if has_eps else None}
+            base = {'seed': seed, 'kind': 'i2g', 'map': name, 'aniso_case': aniso, 'mu_r': has_mu,
+                    'epsilon_r': has_eps, 'nodes': [[float.hex(x) for x in a] for a in nodes],
+                    'new_nodes': [[float.hex(x) for x in a] for a in nnodes]}
+            model = emg3d.Model(g, mapping=name, **{k: (None if a is None else a.copy())
+                                                    for k, a in props.items()})
+            try:
+                m2 = model.interpolate_to_grid(ng)
+            except Exception as e:
+                return dict(base, signature='Model.interpolate_to_grid fails on a valid model', observed=repr(e))
+            log = not name.startswith('L')
+            if m2.case != model.case:
+                return dict(base, signature='Model.interpolate_to_grid changes the anisotropy case',
+                            observed=m2.case, required=model.case)
+            for pn, arr in props.items():
+                got = getattr(m2, pn)
+                if (arr is None) != (got is None):
+                    return dict(base, signature=f'Model.interpolate_to_grid: {pn} defined/undefined status changed',
+                                observed='None' if got is None else 'defined',
+                                required='None' if arr is None else 'defined')
+                if arr is None:
+                    continue
+                want = maps.interpolate(g, arr, ng, method='volume', log=log)
+                if not np.all(np.abs(got - want) <= 1e-9 * np.abs(want)):
+                    k = int(np.argmax(np.abs(got - want)))
+                    return dict(base, signature=f'Model.interpolate_to_grid: {pn} is not the volume average of {pn}',
+                                flat_index=k, observed=float(np.ravel(got)[k]), required=float(np.ravel(want)[k]))
+    return None
+
+
 def search(ctx, broken):
     rng = ctx.rng
     n = 300 if ctx.thorough else 80
@@ -794,6 +878,12 @@ def search(ctx, broken):
         if h:
             hits.append(h)
             break
+    for k in range(12 if ctx.thorough else 3):
+        if hits:
+            break
+        h = search_i2g_case(rng.randint(0, 2 ** 40))
+        if h:
+            hits.append(h)
     for k in range(n):
         if hits:
             break
@@ -813,4 +903,6 @@ def replay(ctx, payload):
         return False
     if fi.get('kind') == 'history':
         return search_history_case(int(fi['seed'])) is None
+    if fi.get('kind') == 'i2g':
+        return search_i2g_case(int(fi['seed'])) is None
     return search_case(int(fi['seed']), bool(fi.get('log'))) is None
